@@ -212,7 +212,7 @@ def gen_case(ctx, k_case):
         for row in data:
             row[d0] = off[d0]
     rng_given = None
-    if r.random() < 0.25 and dim > 1:     # (1-D data with a user range: every `concatenate` of the split raises, see handoff)
+    if r.random() < 0.25:
         lo = [off[d] + size[d] * r.choice([0.0, 0.0, -0.25, 0.125]) for d in range(dim)]
         hi = [off[d] + size[d] * r.choice([1.0, 1.0, 1.25, 0.875]) for d in range(dim)]
         rng_given = [lo, hi]
